@@ -26,6 +26,7 @@ EXPLANATION = (
     "surviving between tasks; (D5) exact values: one runner.get_exact_expectation_values(task.circuit, "
     "task.operator) per task in order (argument slots match the simulator's signature), wrapped one-to-one. "
     "(D3) is decided by path conditions on `is_constant` (a value not governed by that test serves both cases and is a violation); (D6) both sampling regimes number qubits alike (rule shared with C04-D1), which 'regardless of shot count' needs."
+    ' Round 4: (D7) the simulated state the exact values are computed from is threaded as decided by C01-D1.'
 )
 RULE_TEXT = "instances = partition appends, unpack slots, single-binding obligations per partition name, element-wise producers, zips, allocation, constant/zero-shot branches, per-task field provenance; distinct by (rule, construct)"
 ASSUMPTIONS = [
